@@ -386,6 +386,15 @@ class Executor:
             return -v
         if isinstance(node.op, ast.UAdd):
             return v
+        if isinstance(node.op, ast.Invert):
+            if hasattr(v, "invert"):
+                return v.invert(self, st)                   # model object (e.g. ~bool_tensor)
+            if isinstance(v, bool):
+                return not v
+            if isinstance(v, z3.BoolRef):
+                return z3.Not(v)
+            if isinstance(v, int):
+                return ~v
         raise Undecided("unary op")
 
     def ev_BoolOp(self, node, st, fr):
